@@ -374,12 +374,13 @@ def obligations(tier):
         cx.assume(AND(conds))
         return st
 
-    def reindex_body(cx, wrong=False, pi_=0):
+    def reindex_body(cx, wrong=False, pi_=0, xs=None):
         n = 3
         axes = list(list(itertools.permutations(range(n)))[pi_])
         st = sym_ch(cx, n)
         new = st.reindex(axes)
-        x = cx.choose('x', 2**n)
+        # the output basis state is a finite selector; obligations are sharded over it so that the pool can balance them
+        x = xs[cx.choose('x', len(xs))] if xs is not None else cx.choose('x', 2**n)
         ybits = [(x >> (n - 1 - i)) & 1 for i in range(n)]
         old = [0] * n
         for i in range(n):
@@ -389,8 +390,11 @@ def obligations(tier):
         xo = int(''.join(map(str, old)), 2)
         cx.close(new.inner_product_of_state_and_x(int(x)), st.inner_product_of_state_and_x(xo), label='StabilizerStateChForm.reindex amplitude')
 
+    RE_DESC = 'StabilizerStateChForm.reindex(axes) for every permutation of 3 qubits from an ARBITRARY valid CH-form state (F, G, M, gamma, v, s symbolic under the representation invariant): every amplitude <y|reindexed> equals the amplitude of the correspondingly permuted basis state of the original (sharded over pairs of output basis states)'
     for pi_ in ((1, 3, 4) if tier == 'quick' else range(6)):
-        obs.append(Obligation(f'chform.reindex.perm{pi_}', lambda cx, pi_=pi_: reindex_body(cx, pi_=pi_), twin=(lambda cx, pi_=pi_: reindex_body(cx, wrong=True, pi_=pi_)) if pi_ in (1, 3) else None, opts={'weight': 30, 'vc_timeout_ms': 120000}, desc='StabilizerStateChForm.reindex(axes) for every permutation of 3 qubits from an ARBITRARY valid CH-form state (F, G, M, gamma, v, s symbolic under the representation invariant): every amplitude <y|reindexed> equals the amplitude of the correspondingly permuted basis state of the original'))
+        for sh in range(4):
+            xs_ = (2 * sh, 2 * sh + 1)
+            obs.append(Obligation(f'chform.reindex.perm{pi_}.x{xs_[0]}{xs_[1]}', lambda cx, pi_=pi_, xs_=xs_: reindex_body(cx, pi_=pi_, xs=xs_), twin=(lambda cx, pi_=pi_, xs_=xs_: reindex_body(cx, wrong=True, pi_=pi_, xs=xs_)) if (pi_ in (1, 3) and sh == 0) else None, opts={'weight': 30, 'vc_timeout_ms': 120000}, desc=RE_DESC))
 
     # ---- (e) single-qubit Clifford group: the solver enumerates all valid 1-qubit tableaux (24), pairs for binary laws
     def enum_tableau(cx, prefix):
@@ -463,7 +467,7 @@ def obligations(tier):
         ('SWAP', cirq.SWAP, 2), ('gphase', cirq.global_phase_operation(1j), 0),
     ]
 
-    def chgate_body(cx, wrong=False, gi=0):
+    def chgate_body(cx, wrong=False, gi=0, xs=None):
         from oracles import embed as EM_
 
         n = 2
@@ -478,7 +482,7 @@ def obligations(tier):
         cirq.act_on(op, sim)
         new = sim.state
         U = EM_.embed_matrix(cirq.unitary(g) if k else cirq.unitary(op), list(ax), n) if k else np.eye(2**n) * complex(cirq.unitary(op)[0, 0])
-        x = cx.choose('x', 2**n)
+        x = xs[cx.choose('x', len(xs))] if xs is not None else cx.choose('x', 2**n)
         exp = 0
         for y in range(2**n):
             if abs(U[x, y]) > 1e-12:
@@ -487,10 +491,15 @@ def obligations(tier):
             exp = exp * (-1)
         cx.close(new.inner_product_of_state_and_x(int(x)), exp, label=f'chform.act_on[{gname}] amplitude (incl. global phase)')
 
+    CH_DESC = 'cirq.act_on(gate, StabilizerChFormSimulationState) from an ARBITRARY valid 2-qubit CH-form state (all of F, G, M, gamma, v, s symbolic under the representation invariant): every amplitude of the new state equals the matrix of the gate applied to the amplitudes of the old state, INCLUDING the global phase'
+    HEAVY = ('H', 'sqrtX', 'sqrtXdg', 'sqrtY', 'sqrtYdg', 'Xshift', 'X', 'Y')
     for gi, (gname, _g, _k) in enumerate(CHG):
         if tier == 'quick' and gname not in ('H', 'S', 'CZ', 'CX', 'sqrtY', 'Xshift', 'gphase'):
             continue
-        obs.append(Obligation(f'chform.gate.{gname}', lambda cx, gi=gi: chgate_body(cx, gi=gi), twin=(lambda cx, gi=gi: chgate_body(cx, wrong=True, gi=gi)) if gname in ('H', 'CZ', 'S') else None, opts={'weight': 10, 'vc_timeout_ms': 120000}, desc='cirq.act_on(gate, StabilizerChFormSimulationState) from an ARBITRARY valid 2-qubit CH-form state (all of F, G, M, gamma, v, s symbolic under the representation invariant): every amplitude of the new state equals the matrix of the gate applied to the amplitudes of the old state, INCLUDING the global phase'))
+        shards = [(0,), (1,), (2,), (3,)] if gname in HEAVY else [None]
+        for si, xs_ in enumerate(shards):
+            nm = f'chform.gate.{gname}' + ('' if xs_ is None else f'.x{xs_[0]}')
+            obs.append(Obligation(nm, lambda cx, gi=gi, xs_=xs_: chgate_body(cx, gi=gi, xs=xs_), twin=(lambda cx, gi=gi, xs_=xs_: chgate_body(cx, wrong=True, gi=gi, xs=xs_)) if (gname in ('H', 'CZ', 'S') and si == 0) else None, opts={'weight': 10, 'vc_timeout_ms': 120000}, desc=CH_DESC))
 
     for n_ in ([2] if tier == 'quick' else [2, 3]):
         obs.append(
